@@ -7,6 +7,7 @@ package main
 
 import (
 	"fmt"
+	"go/constant"
 	"go/token"
 	"go/types"
 	"sort"
@@ -172,6 +173,27 @@ func (ac *affCtx) form(v ssa.Value) *affForm {
 		if x.Op == token.SUB {
 			return affScale(ac.form(x.X), -1)
 		}
+	case *ssa.Call:
+		// a repo function applied to constants only folds to a constant (e.g. note.Octave(1).Semitone() = 12)
+		if callee := staticCallee(&x.Call); callee != nil && ac.c.isRepoFunc(callee) && len(x.Call.Args) > 0 {
+			var args []fval
+			allConst := true
+			for _, a := range x.Call.Args {
+				k, ok := stripConv(a).(*ssa.Const)
+				if !ok || k.Value == nil {
+					allConst = false
+					break
+				}
+				args = append(args, fval{k: k.Value, t: a.Type()})
+			}
+			if allConst {
+				if r, err := ac.c.newFolder().foldCall(callee, args); err == nil && r.k != nil {
+					if n, ok := constant.Int64Val(constant.ToInt(r.k)); ok {
+						return affConst(n)
+					}
+				}
+			}
+		}
 	}
 	return affAtom(ac.describe(v))
 }
@@ -269,24 +291,10 @@ func (ac *affCtx) describe(v ssa.Value) string {
 		}
 		return "(" + ac.describe(x.X) + x.Op.String() + ac.describe(x.Y) + ")"
 	case *ssa.Phi:
-		var es []string
-		seen := map[string]bool{}
-		for _, e := range x.Edges {
-			if e == v {
-				continue
-			}
-			if _, isPhi := e.(*ssa.Phi); isPhi {
-				es = append(es, "phi")
-				continue
-			}
-			d := ac.describe(e)
-			if !seen[d] {
-				seen[d] = true
-				es = append(es, d)
-			}
+		if x.Comment != "" {
+			return "phi:" + x.Comment
 		}
-		sort.Strings(es)
-		return "phi(" + strings.Join(es, "|") + ")"
+		return "phi:" + x.Name()
 	case *ssa.MakeClosure:
 		return "closure:" + fname(x.Fn.(*ssa.Function))
 	case *ssa.Slice:
